@@ -57,7 +57,8 @@ PidArgs == {"minus2p63", "minus1", "zero", "one", "2p31m1", "2p31", "2p63", "2p6
 NameFns == {"net_if_mtu", "net_if_flags", "net_if_is_running", "net_if_duplex_speed", "disk_partitions"}
 NameArgs == {"empty", "len15", "len16", "len17", "len4096", "nul_inside", "int", "bytes", "noargs"}
 SetFns == {"proc_cpu_affinity_set"}
-SetArgs == {"empty_list", "neg", "huge", "dups", "2p40", "strs", "not_seq", "tuple", "generator"}
+SetArgs == {"empty_list", "neg", "huge", "dups", "2p40", "strs", "not_seq", "tuple", "generator",
+            "cpu63", "cpu64", "cpu300", "cpu1023", "cpu1024", "many"}
 PrioArgs == {"ok", "out_of_range", "2p31", "str"}
 ArgInputs == [fam : {"args"}, fn : PidFns, arg : PidArgs]
              \cup [fam : {"args"}, fn : NameFns, arg : NameArgs]
